@@ -147,6 +147,48 @@ func runC13(c *fw.Case) {
 				c.ViolateD("C13/non-authority-accepted", map[string]string{"msg": label, "route": "authority = signer"}, "%s from a non-governance account was accepted", label)
 			}
 			c13Unchanged(c, n, preSnap, attacker.Bech(), label)
+		case isGov && c.R.Intn(4) == 0:
+			// the real thing: MsgSubmitProposal + MsgVote, executed by x/gov's EndBlocker
+			id, _, perr := n.SubmitAndVote(msg)
+			if p := asPanic(perr); p != nil {
+				c.ViolateD("C20/gov-update-panic", p.Stack, "%s panicked in the proposal route: %s", label, short(p.Value, 200))
+				continue
+			}
+			if id == 0 {
+				rejected++
+				c.Count("proposals_rejected_at_submission", 1)
+			} else {
+				stepErr := func() error {
+					if _, _, err := n.EndBlock(); err != nil {
+						return err
+					}
+					now = now.Add(11 * time.Second)
+					for ti < len(times) && !times[ti].After(now) {
+						ti++
+					}
+					if _, err := n.BeginBlock(now); err != nil {
+						return err
+					}
+					if _, _, err := n.EndBlock(); err != nil { // x/gov tallies and executes here
+						return err
+					}
+					now = now.Add(time.Second)
+					_, err := n.BeginBlock(now)
+					return err
+				}()
+				if stepErr != nil {
+					c13Block(c, stepErr)
+					break
+				}
+				st := n.ProposalStatus(id)
+				ok = st == "PROPOSAL_STATUS_PASSED"
+				c.Count("proposals_executed_by_gov_endblocker", 1)
+				if ok {
+					accepted++
+				} else {
+					rejected++
+				}
+			}
 		default:
 			_, _, gerr := n.GovExec(msg)
 			if p := asPanic(gerr); p != nil {
